@@ -43,6 +43,19 @@ def issubdtype(dt, kind):
     return n == dtype_name(kind)
 
 
+class _FInfo:
+    """jnp.finfo of the 64-bit float type (machine constants as exact rationals)"""
+
+    eps = 2.0**-52
+    tiny = 2.0**-1022
+    max = (2.0 - 2.0**-52) * 2.0**1023
+    min = -max
+    bits = 64
+
+    def __init__(self, dtype=None):
+        self.dtype = dtype
+
+
 def _jit(f=None, **kw):
     if f is None:
         return lambda g: g
@@ -90,6 +103,7 @@ def stub_modules():
         integer=_IntegerKind,
         floating=_FloatKind,
         issubdtype=issubdtype,
+        finfo=_FInfo,
         array=J.array,
         asarray=J.array,
         arange=J.arange,
@@ -129,7 +143,7 @@ def stub_modules():
     lax = _NS("jax.lax", round=X.lax_round)
     special = _NS("jax.scipy.special", logsumexp=X.logsumexp)
     scipy = _NS("jax.scipy", special=special)
-    random = _NS("jax.random", PRNGKey=X.PRNGKey, split=X.split, choice=X.choice, key=X.PRNGKey)
+    random = _NS("jax.random", PRNGKey=X.PRNGKey, split=X.split, choice=X.choice, key=X.PRNGKey, fold_in=X.fold_in)
     util = _NS("jax.util", safe_zip=X.safe_zip, unzip2=X.unzip2)
     jax = _NS(
         "jax",
